@@ -370,6 +370,59 @@ def _pure_value(e):
     return False
 
 
+def _reduce_to_loop(st):
+    """T = functools.reduce(F, (E for k in S), INIT)   ->   T = INIT; for k in S: T = F(T, E)
+    (T a name or a plain subscript that neither F's arguments nor S mention)"""
+    if not (isinstance(st, ast.Assign) and len(st.targets) == 1
+            and isinstance(st.value, ast.Call) and _unparse(st.value.func) in (
+                "functools.reduce", "reduce") and len(st.value.args) == 3
+            and not st.value.keywords and isinstance(st.value.args[0], ast.Name)):
+        return None
+    tgt = st.targets[0]
+    if not (isinstance(tgt, ast.Name) or (isinstance(tgt, ast.Subscript) and _alias_expr(tgt))):
+        return None
+    f, it, init = st.value.args
+    if isinstance(it, ast.GeneratorExp):
+        if len(it.generators) != 1 or it.generators[0].ifs or it.generators[0].is_async:
+            return None
+        var, seq, elt = it.generators[0].target, it.generators[0].iter, it.elt
+    else:
+        name = f"item__r{next(_counter)}"
+        var, seq, elt = ast.Name(id=name, ctx=ast.Store()), it, ast.Name(id=name,
+                                                                          ctx=ast.Load())
+    root = tgt
+    while isinstance(root, ast.Subscript):
+        root = root.value
+    tnames = {n.id for n in ast.walk(tgt) if isinstance(n, ast.Name)}
+    if any(isinstance(n, ast.Name) and n.id == root.id for x in (seq, elt, init)
+           for n in ast.walk(x)) and isinstance(tgt, ast.Name):
+        return None
+    if isinstance(tgt, ast.Subscript) and any(
+            _unparse(n) == _unparse(tgt) for x in (seq, elt) for n in ast.walk(x)
+            if isinstance(n, ast.Subscript)):
+        return None
+    if any(isinstance(n, ast.Name) and n.id in tnames and isinstance(n.ctx, ast.Store)
+           for n in ast.walk(var)):
+        return None
+    load = copy.deepcopy(tgt)
+    for n in ast.walk(load):
+        if isinstance(n, (ast.Name, ast.Subscript)) and isinstance(getattr(n, "ctx", None),
+                                                                    ast.Store):
+            n.ctx = ast.Load()
+    first = ast.Assign(targets=[copy.deepcopy(tgt)], value=init)
+    step = ast.Assign(targets=[copy.deepcopy(tgt)],
+                      value=ast.Call(func=f, args=[load, elt], keywords=[]))
+    var = copy.deepcopy(var)
+    for n in ast.walk(var):
+        if isinstance(n, (ast.Name, ast.Tuple, ast.List)):
+            n.ctx = ast.Store()
+    loop = ast.For(target=var, iter=seq, body=[step], orelse=[])
+    for n in (first, loop):
+        ast.copy_location(n, st)
+        ast.fix_missing_locations(n)
+    return [first, loop]
+
+
 def _lazy_iter_loops(block):
     """T = filter(P, S) / map(F, S) consumed by the `for` loop that follows (or written in its
     header): the predicate / function is applied element by element as the loop runs --
@@ -378,6 +431,7 @@ def _lazy_iter_loops(block):
     and  T = D.setdefault(K, V)  (V a plain value)  ->  if K not in D: D[K] = V ; T = D[K]"""
     out = []
     i = 0
+    block = [x for st in block for x in (_reduce_to_loop(st) or [st])]
     while i < len(block):
         st = block[i]
         nxt = block[i + 1] if i + 1 < len(block) else None
@@ -496,9 +550,59 @@ def _update_to_loop(st):
     return loop
 
 
+def _direct_accumulation(block):
+    """kept = []; ...kept += [e]...; X += kept   (kept used nowhere else, X not touched in
+    between)  ->  ...X += [e]...      and   X += []  ->  nothing"""
+    def is_empty_list(e):
+        return isinstance(e, ast.List) and not e.elts
+
+    block = [st for st in block if not (
+        isinstance(st, ast.AugAssign) and isinstance(st.op, ast.Add)
+        and isinstance(st.target, ast.Name) and is_empty_list(st.value))] or (
+        [ast.copy_location(ast.Pass(), block[0])] if block else block)
+    i = 0
+    while i < len(block):
+        st = block[i]
+        if isinstance(st, ast.Assign) and len(st.targets) == 1 \
+                and isinstance(st.targets[0], ast.Name) and is_empty_list(st.value):
+            k = st.targets[0].id
+            for j in range(i + 1, len(block)):
+                fl = block[j]
+                if isinstance(fl, ast.AugAssign) and isinstance(fl.op, ast.Add) \
+                        and isinstance(fl.target, ast.Name) and isinstance(fl.value, ast.Name) \
+                        and fl.value.id == k:
+                    X = fl.target.id
+                    mid = block[i + 1:j]
+                    rest = block[j + 1:]
+                    uses = [n for m in mid for n in ast.walk(m)
+                            if isinstance(n, ast.Name) and n.id == k]
+                    adds = [n for m in mid for n in ast.walk(m)
+                            if isinstance(n, ast.AugAssign) and isinstance(n.op, ast.Add)
+                            and isinstance(n.target, ast.Name) and n.target.id == k
+                            and isinstance(n.value, ast.List)]
+                    if X != k and len(uses) == len(adds) and adds \
+                            and not any(isinstance(n, ast.Name) and n.id == X
+                                        for m in mid for n in ast.walk(m)) \
+                            and not any(isinstance(n, ast.Name) and n.id == k
+                                        for m in rest for n in ast.walk(m)):
+                        for a in adds:
+                            a.target.id = X
+                        block = block[:i] + mid + rest
+                        i -= 1
+                    break
+                if any(isinstance(n, ast.Name) and n.id == k
+                       and isinstance(n.ctx, ast.Store) for n in ast.walk(fl)) \
+                        and not (isinstance(fl, ast.AugAssign) or any(
+                            isinstance(n, ast.AugAssign) for n in ast.walk(fl))):
+                    break
+        i += 1
+    return block
+
+
 def canon_block(block, in_loop=False, is_loop_body=False):
     out = []
     expanded = []
+    block = _direct_accumulation(list(block)) if block else block
     for st in _lazy_iter_loops(block):
         parts = _split_tuple_assign(st)
         expanded.extend(parts if parts else [st])
@@ -2224,7 +2328,9 @@ def module_constants(tree):
         if isinstance(e, ast.Constant):
             return True
         if isinstance(e, ast.Name):
-            return e.id in funcs or e.id in env
+            return e.id in funcs or e.id in env or (
+                e.id in ("str", "dict", "int", "float", "list", "tuple", "bool", "set", "bytes",
+                         "complex", "type", "object") and e.id not in stores)
         if isinstance(e, ast.Attribute):
             root = e
             while isinstance(root, ast.Attribute):
@@ -2524,6 +2630,48 @@ _CMPOPS = {"eq": ast.Eq, "ne": ast.NotEq, "lt": ast.Lt, "le": ast.LtE, "gt": ast
            "ge": ast.GtE, "is_": ast.Is, "is_not": ast.IsNot}
 
 
+# names bound exactly once to functools.partial(...) and only ever called
+def _partial_defs(scope_body, walker):
+    out = {}
+    for a in walker:
+        if isinstance(a, ast.Assign) and len(a.targets) == 1 \
+                and isinstance(a.targets[0], ast.Name) and isinstance(a.value, ast.Call) \
+                and _unparse(a.value.func) == "functools.partial" and a.value.args \
+                and not any(isinstance(x, ast.Starred) for x in a.value.args) \
+                and not any(k.arg is None for k in a.value.keywords):
+            out[a.targets[0].id] = a.value
+    return out
+
+def _apply_partials(scope, defs):
+    if not defs:
+        return
+    counts, calls = {}, {}
+    for n in ast.walk(scope):
+        if isinstance(n, ast.Name) and n.id in defs:
+            if isinstance(n.ctx, ast.Store):
+                counts[n.id] = counts.get(n.id, 0) + 1
+            else:
+                calls.setdefault(n.id, []).append(n)
+    called = {}
+    for n in ast.walk(scope):
+        if isinstance(n, ast.Call) and isinstance(n.func, ast.Name) and n.func.id in defs:
+            called.setdefault(n.func.id, []).append(n)
+    for name, d in defs.items():
+        if counts.get(name) != 1:
+            continue
+        if len(calls.get(name, [])) != len(called.get(name, [])):
+            continue            # also used as a value: left alone
+        # the bound arguments must be plain (evaluated again at every call)
+        if not all(_simple_arg(x) or isinstance(x, ast.Constant) for x in d.args[1:]) \
+                or not all(_simple_arg(k.value) or isinstance(k.value, ast.Constant)
+                           for k in d.keywords):
+            continue
+        for c in called.get(name, []):
+            c.func = copy.deepcopy(d.args[0])
+            c.args = [copy.deepcopy(x) for x in d.args[1:]] + c.args
+            c.keywords = [copy.deepcopy(k) for k in d.keywords] + c.keywords
+
+
 def std_spellings(tree):
     stores = {}
     for n in ast.walk(tree):
@@ -2610,50 +2758,10 @@ def std_spellings(tree):
     global _OPS_PASS
     _OPS_PASS = Ops
 
-    # names bound exactly once to functools.partial(...) and only ever called
-    def partial_defs(scope_body, walker):
-        out = {}
-        for a in walker:
-            if isinstance(a, ast.Assign) and len(a.targets) == 1 \
-                    and isinstance(a.targets[0], ast.Name) and isinstance(a.value, ast.Call) \
-                    and _unparse(a.value.func) == "functools.partial" and a.value.args \
-                    and not any(isinstance(x, ast.Starred) for x in a.value.args) \
-                    and not any(k.arg is None for k in a.value.keywords):
-                out[a.targets[0].id] = a.value
-        return out
-
-    def apply_partials(scope, defs):
-        if not defs:
-            return
-        counts, calls = {}, {}
-        for n in ast.walk(scope):
-            if isinstance(n, ast.Name) and n.id in defs:
-                if isinstance(n.ctx, ast.Store):
-                    counts[n.id] = counts.get(n.id, 0) + 1
-                else:
-                    calls.setdefault(n.id, []).append(n)
-        called = {}
-        for n in ast.walk(scope):
-            if isinstance(n, ast.Call) and isinstance(n.func, ast.Name) and n.func.id in defs:
-                called.setdefault(n.func.id, []).append(n)
-        for name, d in defs.items():
-            if counts.get(name) != 1:
-                continue
-            if len(calls.get(name, [])) != len(called.get(name, [])):
-                continue            # also used as a value: left alone
-            # the bound arguments must be plain (evaluated again at every call)
-            if not all(_simple_arg(x) or isinstance(x, ast.Constant) for x in d.args[1:]) \
-                    or not all(_simple_arg(k.value) or isinstance(k.value, ast.Constant)
-                               for k in d.keywords):
-                continue
-            for c in called.get(name, []):
-                c.func = copy.deepcopy(d.args[0])
-                c.args = [copy.deepcopy(x) for x in d.args[1:]] + c.args
-                c.keywords = [copy.deepcopy(k) for k in d.keywords] + c.keywords
-    apply_partials(tree, {k: v for k, v in partial_defs(tree.body, tree.body).items()
+    _apply_partials(tree, {k: v for k, v in _partial_defs(tree.body, tree.body).items()
                           if stores.get(k) == 1})
     for fn in [n for n in ast.walk(tree) if isinstance(n, ast.FunctionDef)]:
-        apply_partials(fn, partial_defs(fn.body, ast.walk(fn)))
+        _apply_partials(fn, _partial_defs(fn.body, ast.walk(fn)))
     ast.fix_missing_locations(tree)
     return tree
 
@@ -3045,12 +3153,85 @@ def lift_closures(tree):
     return tree
 
 
+def counting_while_to_for(tree):
+    """n = 0; while n < E: BODY; n += 1   ->   for n in range(E): BODY
+    when BODY neither rebinds n nor the names E reads, has no `continue` of its own, and n is
+    not read after the loop (its final value differs)."""
+    def rewrite(block, after_fn):
+        out, i = [], 0
+        while i < len(block):
+            st = block[i]
+            nxt = block[i + 1] if i + 1 < len(block) else None
+            if isinstance(st, ast.Assign) and len(st.targets) == 1 \
+                    and isinstance(st.targets[0], ast.Name) \
+                    and isinstance(st.value, ast.Constant) and st.value.value == 0 \
+                    and type(st.value.value) is int \
+                    and isinstance(nxt, ast.While) and not nxt.orelse \
+                    and isinstance(nxt.test, ast.Compare) and len(nxt.test.ops) == 1 \
+                    and isinstance(nxt.test.ops[0], ast.Lt) \
+                    and isinstance(nxt.test.left, ast.Name) \
+                    and nxt.test.left.id == st.targets[0].id and len(nxt.body) >= 2:
+                n = st.targets[0].id
+                bound = nxt.test.comparators[0]
+                last = nxt.body[-1]
+                body = nxt.body[:-1]
+                incr = isinstance(last, ast.AugAssign) and isinstance(last.op, ast.Add) \
+                    and isinstance(last.target, ast.Name) and last.target.id == n \
+                    and isinstance(last.value, ast.Constant) and last.value.value == 1
+                reads = {x.id for x in ast.walk(bound) if isinstance(x, ast.Name)}
+                stored = {x.id for b in body for x in ast.walk(b) if isinstance(x, ast.Name)
+                          and isinstance(x.ctx, (ast.Store, ast.Del))}
+                pure_bound = all(isinstance(x, (ast.Name, ast.Constant, ast.Load, ast.Attribute,
+                                                ast.BinOp, ast.operator))
+                                 or (isinstance(x, ast.Call) and isinstance(x.func, ast.Name)
+                                     and x.func.id == "len") for x in ast.walk(bound))
+                used_after = any(isinstance(x, ast.Name) and x.id == n
+                                 for r in block[i + 2:] + after_fn for x in ast.walk(r))
+                if incr and pure_bound and n not in stored and not (reads & stored) \
+                        and not _jumps_out_continue(body) and not used_after:
+                    loop = ast.For(target=ast.Name(id=n, ctx=ast.Store()),
+                                   iter=ast.Call(func=ast.Name(id="range", ctx=ast.Load()),
+                                                 args=[bound], keywords=[]),
+                                   body=body, orelse=[])
+                    out.append(ast.copy_location(loop, nxt))
+                    i += 2
+                    continue
+            out.append(st)
+            i += 1
+        return out
+    for F in [n for n in ast.walk(tree) if isinstance(n, ast.FunctionDef)]:
+        for n in ast.walk(F):
+            for field in ("body", "orelse", "finalbody"):
+                blk = getattr(n, field, None)
+                if isinstance(blk, list) and blk and isinstance(blk[0], ast.stmt) \
+                        and any(isinstance(x, ast.While) for x in blk):
+                    # statements that may run after this block: only the function's own
+                    # top-level block is handled precisely, nested blocks conservatively
+                    after = [] if n is F else list(F.body)
+                    setattr(n, field, rewrite(blk, after))
+    ast.fix_missing_locations(tree)
+    return tree
+
+
+def _jumps_out_continue(body):
+    todo = list(body)
+    while todo:
+        n = todo.pop()
+        if isinstance(n, ast.Continue):
+            return True
+        if isinstance(n, (ast.For, ast.While, ast.FunctionDef, ast.Lambda, ast.ClassDef)):
+            continue
+        todo.extend(ast.iter_child_nodes(n))
+    return False
+
+
 def canonicalise(tree, sigs=None, pkg_methods=None):
     for n in ast.walk(tree):
         if hasattr(n, "lineno"):
             n.__dict__["_src_line"] = n.lineno
     tree = std_spellings(tree)
     tree = next_to_loop(tree)
+    tree = counting_while_to_for(tree)
     tree = lift_closures(tree)
     tree = private_objects(tree)
     tree = module_constants(tree)
@@ -3080,6 +3261,8 @@ def canonicalise(tree, sigs=None, pkg_methods=None):
     tree.body = canon_block(tree.body)
     if _OPS_PASS is not None:
         tree = _OPS_PASS().visit(tree)       # partial(F, a)(x) exposed by the loop rewrites
+        for fn in [n for n in ast.walk(tree) if isinstance(n, ast.FunctionDef)]:
+            _apply_partials(fn, _partial_defs(fn.body, ast.walk(fn)))
         ast.fix_missing_locations(tree)
         helpers_again = _Inliner(tree, pkg_methods)
         if any(isinstance(n, ast.Call) and helpers_again.target(n) for n in ast.walk(tree)):
